@@ -7,4 +7,7 @@ import (
 )
 
 // FuzzGen: coverage-guided search over the generators of this package (see pbt.FuzzGen).
-func FuzzGen(f *testing.F) { pbt.FuzzGen(f) }
+// The two sub-checks whose cases carry thousands of enumerated alterations (0.1 .. 3 s per case, 65535-octet
+// messages) are left out: the fuzzer got 34 executions in 30 s with them. It works on sign-verify (the same
+// generator and the same oracle up to the key / owner clause), sign-sequence and sign-with-reused-sig.
+func FuzzGen(f *testing.F) { pbt.FuzzGen(f, "sign-verify-tamper", "sizes-at-the-limit") }
